@@ -7,9 +7,13 @@ proof         : coq/prop/P_C26.v over model/M_StickySched.v -- a small-step inte
 refuted       : coq/refuted/R_C26.v -- explicit witness schedules (vm_compute) on which the faithful model
                 violates "never while a request is dispatching" and "no dispatch after the close hook started";
                 each witness is replayed against the real middleware below.
-regenerated   : the two expiry comparisons (`expires_at < now` in get / drain_expired) and the structural facts the
-                model relies on (which lock is held around which call, order of release and pop in
-                _close_session, no re-validation after acquire) -> gen/G_StickySched.v ; tie/T_StickySched.v.
+regenerated   : translate/t_c26_shape.py -> gen/G_StickySched.v: (i) the two expiry comparisons of get / drain_expired as
+                the `sshape` the model is parameterised over (the theorems hold for every shape; the correspondence
+                evaluates the model at the regenerated one, so `<` -> `<=` is followed, not alarmed on); (ii) the
+                synchronisation skeleton of get / close / drain_expired / shutdown / _ReaperThread.run /
+                process_request / _close_session / process_response / on_delete (which lock is held around which
+                registry operation and hook call, release-before-pop in _close_session, no registry call after
+                entry.lock.acquire()), proved equal to the modelled skeleton in tie/T_StickySched.v.
 correspondence: harness/c26_sched.py -- a deterministic cooperative scheduler (real threads, one baton) around the
                 REAL Falcon app (make_wsgi_app(enable_sticky=True)), interposing _sticky.threading / _sticky.time;
                 for each (pool, ttl, schedule) the per-step snapshots (clock, entry present, lock owners, parked
@@ -249,8 +253,8 @@ def run(ctx: Any) -> None:
     ctx.rule = (
         "case = (pool of thread kinds {request, request+close_session, DELETE, reaper, shutdown}, session TTL, schedule); "
         "schedules: the 5 refuted-lemma witnesses; all schedules with <= k preemptions (k=1 quick, k=2 thorough; the clock "
-        "crossing the TTL is an actor); seeded random schedules with short bursts; thorough: all schedules up to depth 7 over "
-        "(threads + clock) for 2- and 3-thread pools.  Every schedule is followed by a recorded drain suffix that lets "
+        "crossing the TTL is an actor); seeded random schedules with short bursts; thorough: all schedules up to depth 5-7 over "
+        "(threads + clock) for 2- and 3-thread pools; k=2 lists are sampled (120 per pool).  Every schedule is followed by a recorded drain suffix that lets "
         "every non-reaper thread finish.  distinct by (pool, ttl, executed schedule); non-trivial = at least two threads "
         "took a step and an event was recorded"
     )
@@ -263,20 +267,20 @@ def run(ctx: Any) -> None:
         all_pb = preemption_bounded(pool, ttl, 1 if quick else 2)
         if quick and len(all_pb) > 22:
             all_pb = ctx.rng.sample(all_pb, 22)
-        elif len(all_pb) > 1500:
-            all_pb = ctx.rng.sample(all_pb, 1500)
+        elif len(all_pb) > 120:
+            all_pb = ctx.rng.sample(all_pb, 120)
         cases += [(pool, ttl, s, "preemption-bounded") for s in all_pb]
     if not quick:
         for pool, ttl in [([0, 0, 2], 100), ([0, 1, 2], 100), ([0, 2, 3], 1), ([0, 1, 3], 1), ([0, 2, 4], 100)]:
             all_pb = preemption_bounded(pool, ttl, 2)
-            cases += [(pool, ttl, s, "preemption-bounded") for s in ctx.rng.sample(all_pb, min(len(all_pb), 600))]
+            cases += [(pool, ttl, s, "preemption-bounded") for s in ctx.rng.sample(all_pb, min(len(all_pb), 100))]
         # exhaustive to a depth
-        for pool, ttl, depth in [([0, 2], 100, 7), ([1, 0], 100, 7), ([0, 3], 0, 7), ([0, 0], 0, 6), ([0, 4], 100, 6), ([0, 1, 2], 100, 5), ([0, 2, 3], 0, 5)]:
+        for pool, ttl, depth in [([0, 2], 100, 7), ([1, 0], 100, 7), ([0, 3], 0, 6), ([0, 0], 0, 6), ([0, 4], 100, 6), ([0, 1, 2], 100, 5), ([0, 2, 3], 0, 5)]:
             ids = list(range(0 if ttl <= 3 else 1, len(pool) + 1))
             for tup in itertools.product(ids, repeat=depth):
                 cases.append((pool, ttl, list(tup), f"exhaustive-depth-{depth}"))
     # seeded random
-    for _ in range(100 if quick else 4000):
+    for _ in range(100 if quick else 800):
         pool = ctx.rng.choice(POOLS)
         ttl = ctx.rng.choice([0, 1, 1, 2, 100, 100])
         cases.append((pool, ttl, random_schedule(ctx.rng, pool, ttl), "random"))
